@@ -514,6 +514,46 @@ pub fn digest_cases(path: &str) -> i32 {
     0
 }
 
+/// C07 (d): one seeded batch invocation under four rayon worker counts; directories must be equal
+pub fn check_batch_workers(ctx: &Ctx, cli: &str, i: usize, c: &frontends::CliCase, st: &mut Stats) -> Result<(), Fail> {
+    let mut first: Option<(u8, Vec<(String, Vec<u8>)>)> = None;
+    for t in [1u8, 2, 5, 16] {
+        let mut c2 = c.clone();
+        c2.rayon_threads = t;
+        let dir = format!("{}/work/c07-{}-{}-{}", ctx.verif_dir, std::process::id(), i, t);
+        let ro = frontends::invoke(ctx, &cli, &c2, &dir);
+        let mut files: Vec<(String, Vec<u8>)> = std::fs::read_dir(format!("{}/out", dir))
+            .map(|d| d.filter_map(|e| e.ok()).map(|e| (e.file_name().to_string_lossy().to_string(), std::fs::read(e.path()).unwrap_or_default())).collect())
+            .unwrap_or_default();
+        files.sort();
+        let _ = std::fs::remove_dir_all(&dir);
+        match ro {
+            Err(e) => return Err(Fail::new("harness:invoke", e)),
+            Ok(r) if r.status != Some(0) => {
+                st.label("(d) batch run failed (skipped; C13 decides)");
+                return Ok(());
+            }
+            Ok(_) => {}
+        }
+        match &first {
+            None => first = Some((t, files)),
+            Some((t0, f0)) => {
+                if *f0 != files {
+                    return ctx.fail(
+                        st,
+                        Fail::new(
+                            "nondeterministic:batch-worker-count",
+                            format!("{}: the batch directory written with RAYON_NUM_THREADS={} differs from the one written with {}", c.brief(), t, t0),
+                        ),
+                    );
+                }
+            }
+        }
+    }
+    st.label("(d) batch directory identical for RAYON_NUM_THREADS in {1,2,5,16}");
+    Ok(())
+}
+
 pub fn run_c07(ctx: &Ctx) -> Outcome {
     let mut out = Outcome::new(
         "Cases x execution contexts. (a) every generated GenCase (all configurations, both entropy modes) is run on two fresh instances in \
@@ -614,7 +654,8 @@ pub fn run_c07(ctx: &Ctx) -> Outcome {
     }
     let _ = std::fs::remove_file(&path);
     out.stats.add("(c) generations in freshly spawned processes", (3 * list.len()) as u64);
-    // (d) CLI batch directories across worker counts
+    // (d) CLI batch directories across worker counts: the directories must be identical to each other
+    // (whether they equal the library's bytes is C13's question, not this property's)
     match frontends::build_cli(ctx) {
         Err(e) => out.inconclusive = Some(e),
         Ok(cli) => {
@@ -624,22 +665,18 @@ pub fn run_c07(ctx: &Ctx) -> Outcome {
                 .filter(|c| c.seed.is_some() && matches!(c.mode, frontends::Mode::Batch { fault_at: None, samples } if samples >= 2))
                 .take(n)
                 .collect();
-            let mut items = vec![];
-            for (i, c) in base.iter().enumerate() {
-                for (j, t) in [1u8, 2, 5, 16].iter().enumerate() {
-                    let mut c2 = c.clone();
-                    c2.rayon_threads = *t;
-                    items.push((i * 4 + j + 500_000, c2));
-                }
-            }
-            let (st, found) = run_enum(items, |(i, c), st| frontends::check_cli(ctx, &cli, c, *i, st));
-            out.stats.add("(d) CLI batch runs across RAYON_NUM_THREADS in {1,2,5,16}", st.evaluations);
+            let items: Vec<(usize, frontends::CliCase)> = base.into_iter().enumerate().collect();
+            let (st, found) = run_enum(items, |(i, c), st| check_batch_workers(ctx, &cli, *i, c, st));
             let mut st2 = st;
             st2.samples.clear();
             st2.nontrivial.clear();
             out.stats.merge(st2);
             if let Some(((_, c), f)) = found {
-                out.violation = Some(Violation { fail: Fail::new(format!("batch-workers:{}", f.sig), f.msg), case: json!({"cli_case": c}) });
+                if f.sig.starts_with("harness:") {
+                    out.inconclusive = Some(f.msg);
+                } else {
+                    out.violation = Some(Violation { fail: f, case: json!({"cli_case": c}) });
+                }
                 return out;
             }
         }
